@@ -147,14 +147,24 @@ func installBig(c *Ctx, hpkgs []string) {
 			}
 		}
 		ok := Bool(true)
-		sum := IntC(big.NewInt(0))
-		for k, ch := range chars {
-			ci := toIntAny(ch)
-			ok = And(ok, isDigit62(ci))
-			sum = IntAdd(sum, IntMulC(pow(b62, len(chars)-1-k), digitval62(ci)))
+		for _, ch := range chars {
+			ok = And(ok, isDigit62(toIntAny(ch)))
 		}
 		if !c.branch(ok) {
 			return fail
+		}
+		// one bounded integer per digit value (the bounds reach the arithmetic
+		// solver directly instead of through the if-then-else of the alphabet)
+		sum := IntC(big.NewInt(0))
+		for k, ch := range chars {
+			dv := digitval62(toIntAny(ch))
+			if !dv.isC {
+				v := c.fresh("dig")
+				c.addPC(intBetween(v, 0, 61))
+				c.addPC(IntCmp("=", v, dv))
+				dv = v
+			}
+			sum = IntAdd(sum, IntMulC(pow(b62, len(chars)-1-k), dv))
 		}
 		st := get(c, z)
 		st.abs, st.ub = sum, pow(b62, len(chars))
